@@ -27,6 +27,11 @@ type Tracer struct {
 	Through map[string]bool
 	// Sanitizer marks calls whose result counts as sanitized (leaf kind "sanitized").
 	Sanitizer func(*ssa.Call) bool
+	// Wrapper, when it returns values, makes the call transparent: the trace
+	// continues with those values (typically one argument) instead of
+	// entering the callee (e.g. an escaping helper whose result is a
+	// re-encoding of its argument).
+	Wrapper func(*ssa.Call) []ssa.Value
 	// Descend decides whether to enter a static callee's body.
 	Descend func(*ssa.Function) bool
 	// Up, when set, continues a trace that reached a parameter of the function
@@ -232,6 +237,14 @@ func (t *Tracer) walkH(v ssa.Value, fr []frame, hist []string, d int) {
 		if t.Sanitizer != nil && t.Sanitizer(x) {
 			t.leaf("sanitized", x, CalleeName(&x.Call), hist)
 			return
+		}
+		if t.Wrapper != nil {
+			if vs := t.Wrapper(x); len(vs) > 0 {
+				for _, a := range vs {
+					t.walkH(a, fr, hist, d+1)
+				}
+				return
+			}
 		}
 		name := CalleeName(&x.Call)
 		if callee := x.Call.StaticCallee(); callee != nil && callee.Blocks != nil && !x.Call.IsInvoke() &&
